@@ -4,6 +4,7 @@
 From Coq Require Import NArith ZArith List String Bool.
 From V Require Import Base.UString Base.Json Model.SchemaTypes Model.PyBase Model.Schema Model.Serialize Model.SchemaReparse.
 From V Require Import Gen.Tables Proofs.C04Strict Proofs.C04Witness.
+From V Require Import Proofs.C01KindsAll Proofs.C01Object Proofs.C01Roundtrip Proofs.C01LibInstance Proofs.C04Modes Proofs.C04Flag Spec.CustomFree Proofs.C04CustomFree.
 Import ListNotations.
 
 (* With customisation disallowed no property cleaner -- at any nesting site: lists, hash
@@ -59,3 +60,76 @@ Theorem witnesses_repaired :
   is_refused (run variant_repaired env0 lib any_pattern any_selectors 6 (RParse true false None sighting_of_marking)) = true.
 Proof. split; [exact C04Witness.strict_parse_refuses_loophole_repaired | exact C04Witness.registered_type_outside_category_refused_repaired]. Qed.
 Print Assumptions witnesses_repaired.
+
+(* ------------------------------------------------------------------ the flag and the strict reparse *)
+
+(* The FULL statement the property asks for (target): for every allow-mode run that returns an object,
+   the flag is false exactly when a strict parse of the object's serialization succeeds. *)
+Definition flag_iff_strict_reparse_full_statement : Prop :=
+  forall vr ev w pattern_ok selectors_ok fuel r c i d hc,
+    vr_ref_flip_unreg vr = true -> vr_parse_guard_custom vr = true -> vr_marking_flag vr = true -> vr_flag_from_stored vr = true ->
+    (match r with RConstruct _ a _ _ _ => a | RParse a _ _ _ => a | RParseObs _ _ a _ _ => a end) = true ->
+    run vr ev w pattern_ok selectors_ok fuel r = Ok (PObject c i d hc) ->
+    (hc = false <-> exists fuel' o', reparse vr ev w pattern_ok selectors_ok fuel' false (PObject c i d hc) = Ok o').
+
+(* A run that returns a custom-free object does not depend on the allow_custom switch: every property
+   cleaner that reports no custom content behaves the same in both modes (repaired reference inversion),
+   and so does the constructor of every proved class, at every fuel, on plain input. *)
+Theorem custom_free_run_mode_independent :
+  forall vr ev w pattern_ok selectors_ok, vr_ref_flip_unreg vr = true ->
+  forall ids, closed_ok vr w ids = true ->
+  forall fuel kid a a' interop kw vrefs o,
+    mem_ustr kid ids = true -> plain_dict kw = true ->
+    run vr ev w pattern_ok selectors_ok fuel (RConstruct kid a interop kw vrefs) = Ok o -> pval_has_custom o = false ->
+    run vr ev w pattern_ok selectors_ok fuel (RConstruct kid a' interop kw vrefs) = Ok o.
+Proof. exact C04Flag.run_mode. Qed.
+Print Assumptions custom_free_run_mode_independent.
+
+(* flag_iff_strict_reparse, constructor level, partial (proved classes: closed_ok; plain input; a 2.1 observable
+   with its id): an allow_custom=True run returns flag false exactly when the allow_custom=False run on the
+   object's own encoding succeeds.  Both directions; every fuel. *)
+Theorem flag_iff_strict_reparse_partial :
+  forall vr ev w pattern_ok selectors_ok, vr_year_pad vr = true -> vr_ref_flip_unreg vr = true ->
+  forall ids, closed_ok vr w ids = true ->
+  forall fuel kid interop kw vrefs o,
+    mem_ustr kid ids = true -> plain_dict kw = true -> id_given w kid kw = true ->
+    run vr ev w pattern_ok selectors_ok fuel (RConstruct kid true interop kw vrefs) = Ok o ->
+    (pval_has_custom o = false <->
+     exists o', run vr ev w pattern_ok selectors_ok fuel (RConstruct kid false interop (omem o) vrefs) = Ok o').
+Proof. exact C04Flag.flag_iff_strict_reparse_construct. Qed.
+Print Assumptions flag_iff_strict_reparse_partial.
+
+(* strict_custom_free, constructor level, partial (proved classes: closed_ok; plain input): the object an
+   allow_custom=False constructor returns contains no custom content at any depth, in the typed sense of
+   Spec/CustomFree.v (cf_obj: every member a property of its class, hash names from the vocabulary,
+   references to registered non-x- types, nested objects custom-free in turn, no flag anywhere).  Every fuel. *)
+Definition strict_custom_free_full_statement : Prop :=
+  forall vr ev w pattern_ok selectors_ok fuel kid interop kw vrefs o,
+    run vr ev w pattern_ok selectors_ok fuel (RConstruct kid false interop kw vrefs) = Ok o ->
+    cf_obj w fuel kid o = true.
+
+Theorem strict_custom_free_partial :
+  forall vr ev w pattern_ok selectors_ok ids, closed_ok vr w ids = true ->
+  forall fuel kid interop kw vrefs o,
+    mem_ustr kid ids = true -> plain_dict kw = true ->
+    run vr ev w pattern_ok selectors_ok fuel (RConstruct kid false interop kw vrefs) = Ok o ->
+    cf_obj w fuel kid o = true.
+Proof. exact C04CustomFree.run_strict_custom_free. Qed.
+Print Assumptions strict_custom_free_partial.
+
+(* ... and "always detected": in either mode an object returned with the flag off is custom-free in that sense *)
+Theorem unflagged_is_custom_free_partial :
+  forall vr ev w pattern_ok selectors_ok ids, closed_ok vr w ids = true -> vr_ref_flip_unreg vr = true ->
+  forall fuel kid a interop kw vrefs o,
+    mem_ustr kid ids = true -> plain_dict kw = true ->
+    run vr ev w pattern_ok selectors_ok fuel (RConstruct kid a interop kw vrefs) = Ok o -> pval_has_custom o = false ->
+    cf_obj w fuel kid o = true.
+Proof. exact C04CustomFree.run_unflagged_custom_free. Qed.
+Print Assumptions unflagged_is_custom_free_partial.
+
+(* the hypotheses are met by the repaired variant on the generated tables (class list recomputed each run) *)
+Theorem flag_theorem_applies_to_lib :
+  vr_year_pad variant_repaired = true /\ vr_ref_flip_unreg variant_repaired = true /\
+  closed_ok variant_repaired lib lib_proved_ids = true.
+Proof. exact (conj eq_refl (conj eq_refl C01LibInstance.lib_proved_closed)). Qed.
+Print Assumptions flag_theorem_applies_to_lib.
